@@ -51,6 +51,7 @@ type Scenario struct {
 	Clients          int      `json:"clients,omitempty"`            // concurrent identical clients (default 1)
 	Followup         bool     `json:"followup,omitempty"`           // after the request: every backend works again, one more request is sent
 	ReadTimeoutMs    int      `json:"read_timeout_ms,omitempty"`    // proxy.read_timeout for this stack (default: product default)
+	Vary             uint64   `json:"vary,omitempty"`               // seed for settings no property mentions (stack.Opts.Vary)
 	StreamBufferSize int      `json:"stream_buffer_size,omitempty"` // proxy.stream_buffer_size (default: product default, 8 KiB; 16-64 KiB is what the documentation recommends for the olla engine)
 }
 
@@ -160,7 +161,7 @@ func Run(sc *Scenario) *Obs {
 			b.Close()
 		}
 	}()
-	s, err := stack.Start(stack.Opts{Engine: sc.Engine, Balancer: sc.Balancer, Profile: sc.Profile, EPs: eps, Mutate: func(c *config.Config) {
+	s, err := stack.Start(stack.Opts{Engine: sc.Engine, Balancer: sc.Balancer, Profile: sc.Profile, EPs: eps, Vary: sc.Vary, Mutate: func(c *config.Config) {
 		if sc.ReadTimeoutMs > 0 {
 			c.Proxy.ReadTimeout = time.Duration(sc.ReadTimeoutMs) * time.Millisecond
 		}
